@@ -280,6 +280,13 @@ def model_state(obs):
     return {k: obs[k] for k in ("free", "cap", "lock", "count", "ds", "segs", "files", "jobs")}
 
 
+OP_DEADLINE_S = 10
+
+
+class _Blocked(BaseException):
+    pass
+
+
 class Runner:
     """Executes abstract ops on a Real store, keeps the clients' ledger, concretises every op into
     a model line, and evaluates the oracles after every op."""
@@ -295,6 +302,7 @@ class Runner:
         self.unsafe_purge = False
         self.fails = {}        # kind -> (kind, what, op index): first oracle failure of each kind
         self.stale_evicted = set()   # keys whose dataset was sent to disk while still `created` (stale writer)
+        self.dropped_open = set()    # keys whose dataset vanished (purge, failed page-out) while its writer had not closed
         self.prev_status = {}
         self.nops = 0
         self.stats = {}
@@ -355,6 +363,11 @@ class Runner:
         for k in list(self.stale_evicted):
             if k not in status:
                 self.stale_evicted.discard(k)
+        # an allocation dropped by the store while its writer is still writing: that writer's later close is keyed by
+        # the key only, so it lands on whatever allocation owns the key then (root cause of C09-purge-created-key-reuse)
+        for k in self.prev_status:
+            if k not in status and any(g["k"] == k and not g["closed"] for g in self.grants):
+                self.dropped_open.add(k)
         self.prev_status = status
         for r in self.readers:
             if r["bytes"] is None:
@@ -370,13 +383,32 @@ class Runner:
     # -- the ops
     def apply(self, op):
         kind = op["op"]
+        if getattr(self, "deadlocked", False):
+            return None          # the store no longer answers (see below): nothing more can be observed in this history
         if "t" in op:
             self.t = max(self.t, op["t"])
         self.real.clock.t = self.t
+        # watchdog: every request handler and every disk-job callback of the real Manager runs in this thread, so a
+        # handler that blocks (e.g. on a lock it already holds) would hang the check; a blocked request is a request
+        # that is never answered, i.e. a violation of the 'eventually granted' clause, and is reported as such
+        import signal
+
+        def _on_alarm(*a):
+            raise _Blocked()
+        old = signal.signal(signal.SIGALRM, _on_alarm)
+        signal.alarm(OP_DEADLINE_S)
         try:
             return getattr(self, "_op_" + kind)(op)
+        except _Blocked:
+            self.deadlocked = True
+            self._flag("request-never-answered", f"the store did not answer {kind} {op.get('k', '')} within {OP_DEADLINE_S} s "
+                       f"(a request handler or disk-job callback blocks forever)")
+            self._emit({"op": "blocked-" + kind}, "blocked")
         except Exception as e:   # harness-level surprise from the real code: a result, not a crash
             self._emit({"op": "bad-" + kind}, "exception:" + _exc(e) + ":" + str(e)[:80])
+        finally:
+            signal.alarm(0)
+            signal.signal(signal.SIGALRM, old)
 
     def _op_add(self, op):
         k, size = op["k"], op["size"]
@@ -481,7 +513,7 @@ class Runner:
                            f"written {pattern(g['tok'], g['size'])[:8].hex()}.. ({g['size']} bytes)")
             if g is not None and not g.get("closed_ok"):
                 self._flag("readable-before-close", f"get({k}) granted although the writer of this allocation has not finished",
-                           stale_writer=k in self.stale_evicted)
+                           stale_writer=k in self.stale_evicted, writer_dropped_key_reused=k in self.dropped_open)
             out = {"size": l, "rdid": rdid, "deser": deser}
         self._emit({"op": "get", "k": k, "t": self.t, "cands": op["cands"]}, out)
         return out
